@@ -235,11 +235,11 @@ func consume(s string, c Case) error {
 	return nil
 }
 
-var nameParts = []string{"a", "b", "sample", "two_func", "x1", "Union", "t-1", "m.n"}
-var words = []string{"Record", "Union", "with", "match", "a", "of", "#1", "```", "###", "(x)", "é"}
+var nameParts = []string{"a", "b", "sample", "two_func", "x1", "Union", "t-1", "m.n", "p%d", "50%"}
+var words = []string{"Record", "Union", "with", "match", "a", "of", "#1", "```", "###", "(x)", "é", "100%", "%s", "%d", "%", "{0}", "\\n", "*b*", "_i_", "|", "[l](u)"}
 var contentLines = []string{
 	"package main", "", "let f x = x", "```", "### Title", "## Folang Sample ", "generated go: [gen_a.go](./gen_a.go)",
-	"  indented  ", "// comment", "tab\there", "ünïcödé ☃", "`raw`", "\\n literal", "trailing space ", "\r",
+	"  indented  ", "// comment", "tab\there", "ünïcödé ☃", "`raw`", "\\n literal", "trailing space ", "\r", "100% %s %d %v", "{x} {{y}}",
 }
 
 func genCase(t *rapid.T) Case {
